@@ -235,11 +235,11 @@ def full_case(spec):
 
 def run(res):
     quick = res.tier == "quick"
-    n = 16 if quick else 160
+    n = 16 if quick else 320
     specs = [dict(seed=res.seed, idx=i, kind=("poly" if i % 2 else "box"), max_patches=(16 if quick else 30)) for i in range(n)]
     for r in fw.run_parallel(scene_case, specs):
         res.absorb(r)
-    for r in fw.run_parallel(full_case, [dict(seed=res.seed, idx=i, max_patches=(14 if quick else 26)) for i in range(8 if quick else 80)]):
+    for r in fw.run_parallel(full_case, [dict(seed=res.seed, idx=i, max_patches=(14 if quick else 26)) for i in range(8 if quick else 160)]):
         res.absorb(r)
     res.rule = ("alternating shoeboxes (from_polygon) and closed polyhedra built from triangles through the constructor "
                 "(tetrahedra, octahedra, 12-triangle boxes); 1-3 bands, orders 0-4, one-direction / multi-direction "
